@@ -930,4 +930,40 @@ end
 theorem readTop_ext (E E' : Env) (h : SameReader E E') (j : J) : readTop E j = readTop E' j := by
   cases j <;> simp only [readTop, loadItem_ext E E' h, loadList_ext E E' h, h.eqv]
 
+/-! ### members the reader has no row for are skipped -/
+
+/-- a member added at position `n` (at the end when the object is shorter) -/
+def JMembers.insertAt : Nat → Str → J → JMembers → JMembers
+  | 0, name, j, ms => .cons name j ms
+  | _ + 1, name, j, .nil => .cons name j .nil
+  | n + 1, name, j, .cons a b r => .cons a b (JMembers.insertAt n name j r)
+
+theorem readFields_insert_unknown (E : Env) (sn : String) (name : Str) (j : J)
+    (h1 : E.rrow sn name = none) (h2 : E.rrowMap sn name = none) :
+    ∀ (n : Nat) (ms : JMembers), readFields E sn (JMembers.insertAt n name j ms) = readFields E sn ms
+  | 0, ms => by simp [JMembers.insertAt, readFields, h1, h2]
+  | _ + 1, .nil => by simp [JMembers.insertAt, readFields, h1, h2]
+  | n + 1, .cons a b r => by
+    simp only [JMembers.insertAt, readFields, readFields_insert_unknown E sn name j h1 h2 n r]
+
+theorem get?_insert_other (name k : Str) (j : J) (hne : name ≠ k) :
+    ∀ (n : Nat) (ms : JMembers), JMembers.get? (JMembers.insertAt n name j ms) k = JMembers.get? ms k
+  | 0, ms => by simp [JMembers.insertAt, JMembers.get?, hne]
+  | _ + 1, .nil => by simp [JMembers.insertAt, JMembers.get?, hne]
+  | n + 1, .cons a b r => by
+    simp only [JMembers.insertAt, JMembers.get?, get?_insert_other name k j hne n r]
+
+/-- an object with one more member, under a name no struct reads and that is not "type", loads to the
+same value, wherever the member stands -/
+theorem loadItem_insert_unknown (E : Env) (name : Str) (j : J) (hne : name ≠ nm "type")
+    (h : ∀ k : Kind, E.rrow k.goName name = none ∧ E.rrowMap k.goName name = none)
+    (n : Nat) (ms : JMembers) :
+    loadItem E (.obj (JMembers.insertAt n name j ms)) = loadItem E (.obj ms) := by
+  have ht : typOf (JMembers.insertAt n name j ms) = typOf ms := by
+    unfold typOf; rw [get?_insert_other name (nm "type") j hne]
+  simp only [loadItem, ht]
+  cases E.kindOfType (typOf ms) with
+  | none => rfl
+  | some k => simp only [readFields_insert_unknown E k.goName name j (h k).1 (h k).2]
+
 end APModel.Deep
